@@ -473,6 +473,6 @@ def _run(tier, seed):
 MANIFEST = {
     "engine": "H",
     "technique": "BFS over all operation histories of the real backupdb on an sqlite file, with a most-recent-upload reference stepped alongside",
-    "text": "All histories up to depth 5 (thorough 6) of: attribute changes of two local files (os.stat answered by the check), rename, check_file with/without trusted timestamps followed by nothing / did_upload / did_check_healthy, forgotten caps/last_upload rows, clock jumps, and check_directory / did_create over nine directory contents, run on the real BackupDB_v2; states are merged on the full table dump + model. A returned file cap must be the cap of the path's most recent upload recorded with exactly the current size, mtime, ctime and trusted timestamps; a returned dircap must be the one most recently recorded for exactly the same name-to-cap map.",
+    "text": "All histories up to depth 5 (thorough 6) of: attribute changes of two local files (os.stat answered by the check), rename, check_file with/without trusted timestamps followed by nothing / did_upload / did_check_healthy, forgotten caps/last_upload rows, clock jumps, and check_directory / did_create over nine directory contents, run on the real BackupDB_v2; states are merged on the full table dump + model. A returned file cap must be the cap of the path's most recent upload recorded with exactly the current size, mtime, ctime and trusted timestamps; a returned dircap must be the one most recently recorded for exactly the same name-to-cap map. A step 'the file's mtime changes, then did_upload' separates the time of check from the time of record; directory contents include a renamed-child sibling and the same map in another order.",
     "note": "os/time/random are rebound inside allmydata.scripts.backupdb. Files and directories are explored separately to full depth and jointly over a reduced menu. Sibling transitions re-open a byte copy of the parent database. Missing reuse and should_check deviations are only counted (the statement is an 'only when'). Every transition is an implementation run.",
 }
